@@ -117,10 +117,44 @@ class Ctx:
         return c
 
 
+def sample_asts(ctx):
+    """Deeper operator expressions (depth 3-4) drawn by TLC's simulator from the
+    grammar of module Ops (MC_Ast), seeded with VERIF_SEED."""
+    import re
+    plan = [(40, 3)] if ctx.tier == "quick" else [(300, 3), (300, 4)]
+    key = vlib.sha(vlib.spec_hash(), json.dumps(plan), ctx.seed)
+    d = vlib.ensure(os.path.join(vlib.CACHE, "gen", "MC_Ast-%s" % key))
+    outp = os.path.join(d, "asts.ndjson")
+    if os.path.exists(outp):
+        return outp
+    seen = set()
+    for num, depth in plan:
+        raw = os.path.join(d, "raw.csv")
+        if os.path.exists(raw):
+            os.remove(raw)
+        r = vlib.run_tlc("MC_Ast", vlib.cfg_text("MC_Ast.cfg", {"DEPTH": str(depth)}), os.path.join(d, "tlc"), env={"GEN_OUT": raw}, workers=1,
+                         timeout=1200, extra=["-simulate", "num=%d" % num, "-depth", str(depth + 3), "-seed", str(ctx.seed)])
+        if r["rc"] != 0 or not os.path.exists(raw):
+            raise MachineryFailure("MC_Ast failed: %s" % "\n".join(r["out"].splitlines()[-8:]))
+        for line in open(raw):
+            seen.add(json.loads(line))
+        os.remove(raw)
+    with open(outp + ".tmp", "w") as f:
+        for a in sorted(seen):
+            f.write(a + "\n")
+    os.rename(outp + ".tmp", outp)
+    return outp
+
+
+def family_gen(ctx, family, consts=None):
+    mc, cfg = FAMILIES[family]
+    env = {"EXTRA_ASTS": sample_asts(ctx)} if family == "Ops" else None
+    return vlib.gen(mc, cfg, ctx.consts(consts), ctx.tier, env=env)
+
+
 def stateless(ctx, family, ops, variant="exact", prop_view=None, consts=None, case_filter=None, build_subset=False):
     """Gen -> Exec -> Validate for one stateless family, restricted to `ops`."""
-    mc, cfg = FAMILIES[family]
-    cases_path, st = vlib.gen(mc, cfg, ctx.consts(consts), ctx.tier)
+    cases_path, st = family_gen(ctx, family, consts)
     ctx.cov["states"] += st["states"]
     ctx.cov["transitions"] += st["transitions"]
     ctx.cov["tlc_runs"].append(st)
@@ -152,6 +186,7 @@ def run_and_judge(ctx, family, binp, lines, view, confirm=True):
     for e in extra:
         ctx.violations.append(({"op": "exit"}, json.loads(e), "harness process failed at exit"))
     ctx.last_events = events
+    ctx.last_cases = lines
     rej = sorted(rejected)
     if not rej:
         return
@@ -366,7 +401,36 @@ def c12(ctx):
     stateless(ctx, "Interp", {"Interp"})
 
 
+def apalache_index(ctx):
+    """The integer index algebra over unbounded integers and the true 2^64
+    modulus (SMT, Apalache): the laws must hold, the pinned formulations must
+    be refuted."""
+    import subprocess, shutil
+    out = os.path.join(ctx.work, "apalache")
+    res = {}
+    for inv, want_error in (("LatticeLaws", False), ("IndexLaws", False), ("BugIv", True), ("BugAt", True)):
+        try:
+            p = subprocess.run(["apalache-mc", "check", "--length=0", "--inv=" + inv, "--out-dir=" + out, "Apalache_Index.tla"], cwd=vlib.SPEC,
+                               stdout=subprocess.PIPE, stderr=subprocess.STDOUT, text=True, timeout=900)
+        except (subprocess.TimeoutExpired, FileNotFoundError) as e:
+            raise MachineryFailure("apalache-mc failed: %s" % e)
+        noerr = "The outcome is: NoError" in p.stdout
+        err = "The outcome is: Error" in p.stdout
+        if not (noerr or err):
+            raise MachineryFailure("apalache-mc gave no verdict for %s: %s" % (inv, p.stdout[-800:]))
+        res[inv] = "NoError" if noerr else "Error"
+        if want_error and noerr:
+            raise MachineryFailure("Apalache did not refute the pinned formulation %s: the obligation is vacuous" % inv)
+        if not want_error and err:
+            ctx.violations.append(({"op": "ApalacheIndex", "inv": inv}, {"output": p.stdout[-2500:]}, "index law %s fails over unbounded integers / modulo 2^64" % inv))
+    shutil.rmtree(out, ignore_errors=True)
+    ctx.cov["apalache"] = res
+    ctx.cov["obligations"] = 4
+    ctx.cov["discharged"] = sum(1 for k, v in res.items() if (v == "Error") == k.startswith("Bug"))
+
+
 def c13(ctx):
+    apalache_index(ctx)
     stateless(ctx, "Sup", {"SupRead", "SupIdx", "SupBin", "SupTri", "SupNew", "GridAt", "GridFind", "GridNew"})
 
 
@@ -432,13 +496,16 @@ def fp_family(ctx, ops, variants):
                 if k in e and isinstance(e[k], dict):
                     w = ctx.cov.setdefault("worst_ratio_in_eps_S", {})
                     w[k] = max(w.get(k, 0.0), e[k].get("worst", 0.0))
-        digests.append([{k: e[k]["digest"] for k in ("float", "double", "ldouble") if k in e and isinstance(e[k], dict)}
-                        for e in (json.loads(x) for x in ctx.last_events)])
+        digests.append({c: {k: e[k]["digest"] for k in ("float", "double", "ldouble") if k in e and isinstance(e[k], dict)}
+                        for c, e in zip(ctx.last_cases, (json.loads(x) for x in ctx.last_events))})
     if len(digests) >= 2:
-        diff = [i for i, (a, b) in enumerate(zip(digests[0], digests[1])) if a != b]
-        ctx.cov["bitwise_compared"] = len(digests[0])
-        for i in diff[:5]:
-            ctx.violations.append(({"op": "SelfChecksChangeValues", "variants": list(variants[:2])}, json.loads(ctx.last_events[i]),
+        common = [c for c in digests[0] if c in digests[1]]
+        if len(common) < len(digests[0]):
+            raise MachineryFailure("the two floating builds did not run the same cases")
+        diff = [c for c in common if digests[0][c] != digests[1][c]]
+        ctx.cov["bitwise_compared"] = len(common)
+        for c in diff[:5]:
+            ctx.violations.append(({"op": "SelfChecksChangeValues", "variants": list(variants[:2]), "case": json.loads(c)}, {"digests": [digests[0][c], digests[1][c]]},
                                    "%d results differ bitwise between builds %s and %s" % (len(diff), variants[0], variants[1])))
     ctx.assumptions.append("TLC supplies the exact value E and the magnitude S (abs-mode Level I, an upper bound of the sum of absolute values "
                            "of the terms); the inequality |F-E| <= 2^20 eps S is evaluated by the harness in __float128")
@@ -485,12 +552,10 @@ def c18(ctx):
 
     pick = lambda c, m: zlib.crc32(json.dumps(c, sort_keys=True).encode()) % m == 0
     fams = []
-    mc, cfg = FAMILIES["Spl"]
-    cp, st = vlib.gen(mc, cfg, ctx.consts(), ctx.tier)
+    cp, st = family_gen(ctx, "Spl")
     lines = [l for l in open(cp).read().splitlines() if (lambda c: c["op"] in ("SplEval", "SplUn", "SplBin") and same_grid(c) and pick(c, 40 if quick else 8))(json.loads(l))]
     fams.append(("Spl", cp, lines))
-    mc, cfg = FAMILIES["Ops"]
-    cp, st = vlib.gen(mc, cfg, ctx.consts(), ctx.tier)
+    cp, st = family_gen(ctx, "Ops")
     def opsel(c):
         if c["tag"] == "foreign":
             return False
@@ -691,8 +756,7 @@ def replay(ctx, path):
     r = json.load(open(path))
     c = r["case"]
     if c.get("op") in ("OpApply", "OpBF"):
-        mc, cfg = FAMILIES["Ops"]
-        cases_path, _ = vlib.gen(mc, cfg, ctx.consts(), ctx.tier)
+        cases_path, _ = family_gen(ctx, "Ops")
         binp = build_family("Ops", "exact", cases_path)
     else:
         binp = vlib.build("exact", EXACT_SOURCES)
